@@ -1458,6 +1458,7 @@ func TestC33(t *testing.T) {
 	for i := 0; i < mon.Pick(8, 60); i++ {
 		targets = append(targets, CustomTarget(i))
 	}
+	targets = append(targets, NoShareTargets()...) // specs without a usable key share in the first hello
 	// custom specs advertising each certificate-compression subset
 	for _, algs := range [][]tls.CertCompressionAlgo{{tls.CertCompressionZlib}, {tls.CertCompressionZstd}, {tls.CertCompressionBrotli, tls.CertCompressionZlib, tls.CertCompressionZstd}, {tls.CertCompressionZstd, tls.CertCompressionZlib}} {
 		targets = append(targets, Target{Name: fmt.Sprintf("custom-compress-%v", algs), Spec: customCompressSpec(algs)})
